@@ -22,13 +22,16 @@ PARAMS = {
     'thorough': dict(cases=36000, shards=16, maxlen=22),
 }
 ASSUMPTIONS = [
+    'while a dependent method runs because an object on one of its paths was replaced, the statement is taken to cover what the method '
+    'itself does then: the object now reached through each of its paths already carries its watcher and no detached one does (checked '
+    'structurally, like the leak clause; this is what makes a leaf assignment made by the method itself count)',
     'an operation after/before which one of the method\'s paths does not resolve is not judged for that method (the statement '
     'scopes itself to paths resolving both before and after)',
     'the leak clause recognises owner-bound watchers structurally (functools.partial with a function= keyword bound to the '
     'owner); unrecognisable callbacks are counted, not judged',
 ]
 REQUIRED = {'ops_judged': 3000, 'replacements': 1000, 'leaf_sets': 1000, 'detached_leaf_sets': 200, 'leak_checks': 2000, 'slot_sets': 300, 'falsy_object_cases': 100, 'on_init_builders': 60,
-            'equal_comparing_object_cases': 50, 'batched_subobject_updates': 300, 'batched_owner_updates': 200, 'snapshots_taken': 150, 'shared_subobject_ops': 150}
+            'equal_comparing_object_cases': 50, 'batched_subobject_updates': 300, 'batched_owner_updates': 200, 'snapshots_taken': 150, 'shared_subobject_ops': 150, 'wiring_checks_inside_methods': 300}
 
 _st = {}
 _n = [0]
@@ -182,9 +185,16 @@ def run_case(idx, rng, P, rep):
         mspecs.append(deps)
     ns = dict(a=param.Parameter(default=None), c=param.Parameter(default=None), p=param.Number(default=0.0))
 
+    hooks = dict(inside=None, raise_in=None)
+
     def make(mname, deps):
         def body(self):
             self.__dict__.setdefault('_log', []).append(mname)
+            if hooks['inside'] is not None:
+                hooks['inside'](mname, deps)
+            if hooks['raise_in'] == mname:
+                hooks['raise_in'] = None
+                raise RuntimeError(f'{mname} failed')
         body.__name__ = mname
         return param.depends(*deps, watch=True)(body)
     for mi, deps in enumerate(mspecs):
@@ -293,18 +303,79 @@ def run_case(idx, rng, P, rep):
             if any(o is r for r in live):
                 continue
             rep.count('leak_checks')
-            for pn, d in o.param.watchers.items():
-                for what, ws in d.items():
+            for pn, what, ws in tables(o):
                     for w in ws:
                         fn = w.fn
                         if isinstance(fn, functools.partial) and 'function' in (fn.keywords or {}):
                             owner = getattr(fn.keywords['function'], '__self__', None)
                             if owner is top:
                                 viol('detached-object-keeps-owner-watcher', f'{where}: detached {type(o).__name__} still has a watcher on '
-                                     f'{pn!r} that calls {fn.keywords["function"].__name__} of the owner')
+                                     f'{pn!r}' + (f' ({what})' if what != 'value' else '') + f' that calls {fn.keywords["function"].__name__} of the owner')
                                 return
                         elif getattr(fn, '__self__', None) is None and not isinstance(fn, functools.partial):
                             rep.count('leak_check_unrecognised_callbacks')
+
+    def tables(ob):
+        """(parameter name, what, watchers) over the value watchers of the object and the attribute watchers kept on its own
+        Parameter objects"""
+        for pn_, d_ in ob.param.watchers.items():
+            for what_, ws_ in d_.items():
+                yield pn_, what_, ws_
+        for pn_, pobj_ in ob.param.objects('existing').items():
+            if pobj_.owner is ob:
+                for what_, ws_ in pobj_.watchers.items():
+                    if what_ != 'value':
+                        yield pn_, what_, ws_
+
+    def wired(ob, pname, what, mname):
+        for pn_, what_, ws_ in tables(ob):
+            if pn_ != pname or what_ != what:
+                continue
+            for w in ws_:
+                fn = w.fn
+                if isinstance(fn, functools.partial) and 'function' in (fn.keywords or {}):
+                    f = fn.keywords['function']
+                    if getattr(f, '__self__', None) is top and getattr(f, '__name__', '') == mname:
+                        return True
+        return False
+
+    def _unused(ob, pname, what, mname):
+        for w in ob.param.watchers.get(pname, {}).get(what, []):
+            fn = w.fn
+            if isinstance(fn, functools.partial) and 'function' in (fn.keywords or {}):
+                f = fn.keywords['function']
+                if getattr(f, '__self__', None) is top and getattr(f, '__name__', '') == mname:
+                    return True
+        return False
+
+    def inside_method(mname, deps):
+        # what a dependent method finds while it runs because an object on one of its paths was replaced: the wiring is
+        # already that of the new tree (the attached objects on its paths carry its watcher, no detached object does)
+        rep.count('wiring_checks_inside_methods')
+        live = reachable()
+        for o_ in ever + [new_ for new_ in live if not any(new_ is e_ for e_ in ever)]:
+            if any(o_ is r_ for r_ in live):
+                continue
+            for pn_, what_, _ws in list(tables(o_)):
+                    if wired(o_, pn_, what_, mname):
+                        viol('detached-object-keeps-owner-watcher/while-method-runs', f'while {mname} runs: a detached {type(o_).__name__} '
+                             f'still carries its watcher on {pn_!r}')
+                        return
+        for d in deps:
+            parts = d.split(':')[0].split('.')
+            what = d.split(':')[1] if ':' in d else 'value'
+            if len(parts) < 2 or parts[-1] == 'param':
+                continue
+            o = top
+            for attr in parts[:-1]:
+                o = getattr(o, attr, None)
+                if o is None or not isinstance(o, param.Parameterized):
+                    break
+            else:
+                if parts[-1] in o.param and not wired(o, parts[-1], what, mname):
+                    viol('attached-object-not-watched-while-method-runs', f'while {mname} runs (after {kinds[-1] if kinds else "?"} ...): the '
+                         f'object now reached through {d!r} does not carry the watcher of {mname} yet')
+                    return
 
     def holder_and_attr(prefix):
         """object holding the attribute named by the last element of prefix, e.g. 'a.b' -> (top.a, 'b')"""
@@ -321,6 +392,7 @@ def run_case(idx, rng, P, rep):
         top.__dict__['_log'] = []
         c = rng.random()
         kind = None
+        failing = None
         if c < 0.3:
             # replace an object along a path
             prefix = rng.choice(['a', 'a', 'a.b', 'a.b.b', 'c'])
@@ -350,7 +422,24 @@ def run_case(idx, rng, P, rep):
                 how += '+bounds'
             kind = f'replace:{prefix}:{how}'
             trace.append((kind,))
-            setattr(holder, attr, new)
+            kinds.append(kind)
+            hooks['inside'] = inside_method
+            failing = None
+            if len(mspecs) == 1 and rng.random() < 0.3:
+                # (only with a single dependent method: a failing method ends the dispatch, so the re-wiring of OTHER methods
+                #  that come later in the same dispatch is cut short as well - general watcher semantics, not judged here)
+                # one of the dependent methods fails when it is run for this replacement (the operation is not judged for the
+                # number of calls; what must hold is that everything afterwards behaves as for the new tree)
+                failing = hooks['raise_in'] = f'm{rng.randrange(len(mspecs))}'
+                rep.count('replacements_with_failing_method')
+            try:
+                setattr(holder, attr, new)
+            except RuntimeError:
+                pass
+            finally:
+                hooks['inside'] = None
+                hooks['raise_in'] = None
+                kinds.pop()
             if old is not None:
                 detached_pool.append((prefix, old))
             stats['repl'] += 1
@@ -512,6 +601,9 @@ def run_case(idx, rng, P, rep):
         after = snapshot()
         log = top.__dict__['_log']
         for mi, deps in enumerate(mspecs):
+            if failing is not None:
+                rep.count('ops_unjudged_failing_method')
+                break
             got = log.count(f'm{mi}')
             verdicts = []
             unresolved = False
